@@ -41,7 +41,7 @@ from dataclasses import dataclass
 
 from urwid import event_loop, util
 from urwid.canvas import Canvas
-from urwid.display import AttrSpec, RealTerminal
+from urwid.display import AttrSpec, AttrSpecError, RealTerminal
 from urwid.display.escape import ALT_DEC_SPECIAL_CHARS, DEC_SPECIAL_CHARS
 from urwid.widget import Sizing, Widget
 
@@ -1206,7 +1206,11 @@ class TermCanvas(Canvas):
 
                 attributes.add(attr)
 
-        attrspec = self.sgi_to_attrspec(attrs, fg, bg, attributes, self.attrspec.colors if self.attrspec else 1)
+        try:
+            attrspec = self.sgi_to_attrspec(attrs, fg, bg, attributes, self.attrspec.colors if self.attrspec else 1)
+        except AttrSpecError:
+            # colour values that no AttrSpec can express (e.g. components above 255): ignore the sequence
+            return
 
         if self.modes.reverse_video:
             self.attrspec = self.reverse_attrspec(attrspec)
